@@ -263,6 +263,16 @@ class Interp:
                     self.bind(f["p"], ("payload", t, path, f["f"]) if t[0] != "varn" else dict(t[2]).get(f["f"], ("unk", "field")), env)
         elif k == "Expr":
             pass
+        elif k == "Or":
+            # alternatives without bindings need nothing bound
+            def has_binding(p):
+                if isinstance(p, dict):
+                    return p.get("k") == "Binding" or any(has_binding(v) for v in p.values() if isinstance(v, (dict, list)))
+                if isinstance(p, list):
+                    return any(has_binding(v) for v in p)
+                return False
+            if has_binding(pat):
+                raise Unsupported("or-pattern with bindings")
         else:
             raise Unsupported(f"pattern {k}")
 
@@ -288,6 +298,18 @@ class Interp:
             return ("is", t, path)
         if k == "TupleStruct" or (k == "Struct" and self.prog.adts.get(pat.get("def")) is None) or (k == "Struct" and self.prog.adts.get(pat.get("def"), {}).get("kind") != "Struct"):
             path = pat.get("def")
+            if t[0] == "varn":
+                if t[1] != path:
+                    return False
+                conds = []
+                fl = dict(t[2])
+                for f in pat.get("fields") or []:
+                    r = self.test(f["p"], fl.get(f["f"], ("unk", "field")))
+                    if r is False:
+                        return False
+                    if r is not True:
+                        conds.append(r)
+                return True if not conds else ("and", tuple(conds))
             if t[0] == "var":
                 if t[1] != path:
                     return False
